@@ -10,17 +10,23 @@ func (m *MonC13) snapshot(w *World) {
 	m.preQueries = map[string][]string{}
 	m.preLocked = map[string]bool{}
 	m.preRaw = map[string]map[string]bool{}
+	m.preGroup = map[string]map[string]int{}
+	m.preSubs = liveSubs(w)
 	for _, e := range w.CacheSnapshot() {
 		raw := map[string]bool{}
-		for _, r := range e.Resources {
+		group := map[string]int{}
+		for i, r := range e.Resources {
 			if r.State >= 3 && !r.Resetting {
 				raw[r.Query] = true
+				group[r.Query] = i
 				for _, l := range r.Links {
 					raw[l] = true
+					group[l] = i
 				}
 			}
 		}
 		m.preRaw[e.Name] = raw
+		m.preGroup[e.Name] = group
 		set := map[string]bool{}
 		for _, r := range e.Resources {
 			if r.Query != "" && r.State >= 3 {
@@ -30,4 +36,49 @@ func (m *MonC13) snapshot(w *World) {
 		m.preQueries[e.Name] = sortedKeys(set)
 		m.preLocked[e.Name] = e.Locked || e.QueueLen > 0
 	}
+}
+
+// liveSubs returns, per rid, the identities of the connection subscriptions
+// that are neither disposed nor deleted.
+func liveSubs(w *World) map[string]map[uintptr]bool {
+	out := map[string]map[uintptr]bool{}
+	for _, c := range w.ConnSnapshot() {
+		for _, s := range c.Subs {
+			if s.State == 0 || s.State == 6 {
+				continue
+			}
+			if out[s.RID] == nil {
+				out[s.RID] = map[uintptr]bool{}
+			}
+			out[s.RID][s.Ptr] = true
+		}
+	}
+	return out
+}
+
+// heldThroughout reports whether a connection subscription of the cached
+// query resource that name?query was linked to before the step is still the
+// same object after the step: then the cache cannot have dropped the resource
+// for lack of subscribers in between.
+func (m *MonC13) heldThroughout(w *World, name, query string) bool {
+	g, ok := m.preGroup[name][query]
+	if !ok {
+		return false
+	}
+	post := liveSubs(w)
+	for q, gi := range m.preGroup[name] {
+		if gi != g {
+			continue
+		}
+		rid := name
+		if q != "" {
+			rid += "?" + q
+		}
+		for p := range m.preSubs[rid] {
+			if post[rid][p] {
+				return true
+			}
+		}
+	}
+	return false
 }
